@@ -180,6 +180,9 @@ pub struct Config {
     /// Whether to stop searching when a non-matching line is found after a
     /// matching line.
     stop_on_nonmatch: bool,
+    /// Verification hook: initial capacity of the roll buffer.
+    #[cfg(ripgrep_verif)]
+    verif_capacity: Option<usize>,
 }
 
 impl Default for Config {
@@ -198,6 +201,8 @@ impl Default for Config {
             encoding: None,
             bom_sniffing: true,
             stop_on_nonmatch: false,
+            #[cfg(ripgrep_verif)]
+            verif_capacity: None,
         }
     }
 }
@@ -227,6 +232,10 @@ impl Config {
             builder
                 .capacity(capacity)
                 .buffer_alloc(BufferAllocation::Error(additional));
+        }
+        #[cfg(ripgrep_verif)]
+        if let Some(capacity) = self.verif_capacity {
+            builder.capacity(capacity);
         }
         builder.build()
     }
@@ -331,6 +340,17 @@ impl SearcherBuilder {
             line_buffer: RefCell::new(self.config.line_buffer()),
             multi_line_buffer: RefCell::new(vec![]),
         }
+    }
+
+    /// Verification hook: start the roll buffer (and the binary sniffing
+    /// window of the slice strategies) at the given number of bytes.
+    #[cfg(ripgrep_verif)]
+    pub fn verif_buffer_capacity(
+        &mut self,
+        capacity: Option<usize>,
+    ) -> &mut SearcherBuilder {
+        self.config.verif_capacity = capacity;
+        self
     }
 
     /// Set the line terminator that is used by the searcher.
@@ -602,6 +622,15 @@ pub struct Searcher {
     /// performed incrementally, and need the entire haystack in memory at
     /// once.
     multi_line_buffer: RefCell<Vec<u8>>,
+}
+
+#[cfg(ripgrep_verif)]
+impl Searcher {
+    /// Verification hook: replace the transcoder's scratch buffer by one of
+    /// the given length.
+    pub fn verif_set_decode_buffer_len(&mut self, len: usize) {
+        *self.decode_buffer.borrow_mut() = vec![0; len];
+    }
 }
 
 impl Searcher {
